@@ -265,7 +265,22 @@ def run(repo: Repo, chk: Check, thorough: bool = False) -> None:
     rets = [n for n in pc.walk() if isinstance(n, ast.Return) and isinstance(n.value, ast.Name) and n.value.id in resv]
     ok = bool(rets) and all(norm(s.value) in resv for s in sets)
     chk.ob('R13.2', 'model.System.privacyClass :: returns what it caches', ok, 'cache[...] = privacy; return privacy', pc.loc)
-    chk.require('R13.2', 8)
+    # the rules are consulted for every object: no class answers its privacy without going through System.privacyClass
+    n_ov = 0
+    for f in sorted(repo.funcs.values(), key=lambda f: f.qn):
+        if f.name != 'privacyClass' or f.cls is None or not f.mod.name.startswith('pydoctor.') or '.test' in f.mod.name or f.cls.qn == 'pydoctor.model.System':
+            continue
+        n_ov += 1
+        rets = [n for n in f.walk() if isinstance(n, ast.Return) and n.value is not None]
+        consults = [r for r in rets if any((isinstance(x, ast.Call) and call_name(x) == 'privacyClass') or
+                                           (isinstance(x, ast.Attribute) and x.attr == 'privacyClass' and 'super()' in norm(x.value)) for x in ast.walk(r.value))]
+        chk.ob('R13.2', f'{f.qn} :: every answer comes from the rule evaluation', bool(rets) and len(consults) == len(rets),
+               'defers to System.privacyClass / the inherited property on every path' if rets and len(consults) == len(rets) else
+               f'`{norm([r for r in rets if r not in consults][0])}` answers without looking at the --privacy rules: a HIDDEN: (or PUBLIC:) rule naming such an object '
+               'has no effect', f.loc)
+    if n_ov < 1:
+        raise AnalysisError('R13.2: the Documentable.privacyClass property was not found')
+    chk.require('R13.2', 9)
 
     # ------------------------------------------------------------------ R13.3
     pp = repo.func('pydoctor.utils.parse_privacy_tuple')
